@@ -473,7 +473,8 @@ def run_level_b(env, rep, R):
         if starved:
             raise HarnessError("model ran out of time-out draws: " + line[:300])
         rep.traces += 1
-        cm = strip_pipe_events(cm)
+        # the joint driver prints no table snapshots; msglayer's canonicaliser marks their (empty) place with "~"
+        cm = strip_pipe_events("|".join(g.split("~")[0] for g in cm.split("|")))
         if cm != i:
             rep.disagree({"case": case, "line": line[:2000]}, cm[:3000], i[:3000],
                          what="observation over the UDP stack vs message layer + runner")
